@@ -67,28 +67,12 @@ func TestNegoUfs(t *testing.T) {
 	base := scratch()
 	defer os.RemoveAll(base)
 	root := filepath.Join(base, "root")
+	objects := buildSpecialTree(t, root)
 	must := func(err error) {
 		if err != nil {
 			t.Fatal(err)
 		}
 	}
-	must(os.MkdirAll(filepath.Join(root, "d"), 0o755))
-	must(os.WriteFile(filepath.Join(root, "f"), []byte("data"), 0o644))
-	must(os.Symlink("f", filepath.Join(root, "l")))
-	must(os.Symlink("nowhere", filepath.Join(root, "dangling")))
-	must(syscall.Mkfifo(filepath.Join(root, "p"), 0o644))
-	must(syscall.Mkfifo(filepath.Join(root, "d", "p2"), 0o600))
-	must(os.WriteFile(filepath.Join(root, "su"), []byte("x"), 0o755))
-	must(os.Chmod(filepath.Join(root, "su"), 0o755|os.ModeSetuid))
-	must(os.WriteFile(filepath.Join(root, "sg"), []byte("x"), 0o755))
-	must(os.Chmod(filepath.Join(root, "sg"), 0o755|os.ModeSetgid))
-	must(os.Mkdir(filepath.Join(root, "sgd"), 0o755))
-	must(os.Chmod(filepath.Join(root, "sgd"), 0o755|os.ModeSetgid))
-	if l, err := net.Listen("unix", filepath.Join(root, "s")); err == nil {
-		l.(*net.UnixListener).SetUnlinkOnClose(false)
-		l.Close()
-	}
-	objects := [][]string{{}, {"d"}, {"f"}, {"l"}, {"dangling"}, {"p"}, {"d", "p2"}, {"su"}, {"sg"}, {"sgd"}, {"s"}}
 	kindBit := func(fi os.FileInfo) uint32 {
 		var b uint32
 		m := fi.Mode()
@@ -262,4 +246,32 @@ func (s *Sess) rawFrame(m *wire.Msg) ([]byte, error) {
 		return nil, e
 	}
 	return buf, nil
+}
+
+// buildSpecialTree makes a tree holding every kind of object the host can hold without privileges and returns
+// the paths of its objects (components from the root).
+func buildSpecialTree(t *testing.T, root string) [][]string {
+	must := func(err error) {
+		if err != nil {
+			t.Fatal(err)
+		}
+	}
+	must(os.MkdirAll(filepath.Join(root, "d"), 0o755))
+	must(os.WriteFile(filepath.Join(root, "f"), []byte("data"), 0o644))
+	must(os.Symlink("f", filepath.Join(root, "l")))
+	must(os.Symlink("nowhere", filepath.Join(root, "dangling")))
+	must(syscall.Mkfifo(filepath.Join(root, "p"), 0o644))
+	must(syscall.Mkfifo(filepath.Join(root, "d", "p2"), 0o600))
+	must(os.WriteFile(filepath.Join(root, "su"), []byte("x"), 0o755))
+	must(os.Chmod(filepath.Join(root, "su"), 0o755|os.ModeSetuid))
+	must(os.WriteFile(filepath.Join(root, "sg"), []byte("x"), 0o755))
+	must(os.Chmod(filepath.Join(root, "sg"), 0o755|os.ModeSetgid))
+	must(os.Mkdir(filepath.Join(root, "sgd"), 0o755))
+	must(os.Chmod(filepath.Join(root, "sgd"), 0o755|os.ModeSetgid))
+	if l, err := net.Listen("unix", filepath.Join(root, "s")); err == nil {
+		l.(*net.UnixListener).SetUnlinkOnClose(false)
+		l.Close()
+	}
+	objects := [][]string{{}, {"d"}, {"f"}, {"l"}, {"dangling"}, {"p"}, {"d", "p2"}, {"su"}, {"sg"}, {"sgd"}, {"s"}}
+	return objects
 }
